@@ -9,6 +9,7 @@ import (
 	"time"
 
 	"github.com/fsnotify/fsnotify"
+	"golang.org/x/sys/unix"
 	"pgregory.net/rapid"
 
 	"verif/harness/engine"
@@ -68,6 +69,11 @@ func genC06(t *rapid.T, prop string) *LCase {
 		}
 	}
 	c.Procs = rapid.SampledFrom([]int{0, 1, 2, 4, 16}).Draw(t, "procs")
+	if engine.Pct(t, "storm", 15) {
+		// many goroutines hammering the API while Close runs: the lock is
+		// contended when the closed flag flips
+		c.Storm = rapid.IntRange(4, 12).Draw(t, "storm-n")
+	}
 	genOverflow(t, c)
 	return c
 }
@@ -136,9 +142,22 @@ func runC06(c *LCase) (r c06Result) {
 	defer w.Destroy()
 	if c.Prop == "C13" {
 		keepAlive = append(keepAlive, w)
+		// a descriptor that is not close-on-exec is inherited by every child
+		// process started meanwhile: Close then releases only this process's
+		// copy, the kernel instance and all its watches live on in the child
+		if fl, err := unix.FcntlInt(uintptr(w.Wfd), unix.F_GETFD, 0); err == nil && fl&unix.FD_CLOEXEC == 0 {
+			r.viol = fmt.Sprintf("the Watcher's notification descriptor %d is not close-on-exec: a child process started while the Watcher exists keeps the kernel instance and all its watches alive after Close", w.Wfd)
+			return
+		}
 	}
+	// a call that never returns before Close is C05's business; what matters
+	// here is what Close does in that state
+	stuck := ""
 	for _, a := range c.Adds {
-		w.W.Add(string(a))
+		a := string(a)
+		if stuck == "" {
+			stuck = guarded(fmt.Sprintf("Add(%q)", a), func() { w.W.Add(a) })
+		}
 	}
 	var cons *consumer
 	if !c.Plug {
@@ -153,9 +172,15 @@ func runC06(c *LCase) (r c06Result) {
 	for _, s := range c.Reach {
 		w.FsOp(s)
 	}
-	if c.Overflow > 0 {
-		overflowBurst(w.W, c.Overflow)
+	if c.Overflow > 0 && stuck == "" {
+		stuck = overflowBurst(w.W, c.Overflow)
 		r.feats = append(r.feats, "close-with-error-pending")
+	}
+	if stuck != "" {
+		if proof, ok := withWatchdog("Close()", func() { w.W.Close() }); !ok {
+			r.viol = "Close never completes, the channels are never closed: " + proof + "\n\nbefore that: " + stuck
+		}
+		return
 	}
 	pending, _ := engine.Fionread(w.Wfd)
 	if cons == nil {
@@ -214,6 +239,24 @@ func runC06(c *LCase) (r c06Result) {
 			}
 		})
 	}
+	if c.Storm > 0 {
+		r.feats = append(r.feats, "close-during-api-storm")
+		for g := 0; g < c.Storm; g++ {
+			g := g
+			launch(fmt.Sprintf("storm goroutine %d (Add/WatchList/Remove loop)", g), func() {
+				for i := 0; i < 60; i++ {
+					switch (i + g) % 3 {
+					case 0:
+						w.W.Add([]string{"d0", "d1", "u"}[i%3])
+					case 1:
+						w.W.WatchList()
+					default:
+						w.W.Remove([]string{"d1", "u"}[i%2])
+					}
+				}
+			})
+		}
+	}
 	close(start)
 	wg.Wait()
 	if len(viol) > 0 {
@@ -221,22 +264,36 @@ func runC06(c *LCase) (r c06Result) {
 		return
 	}
 	// Close has returned: API is inert
-	for _, p := range []string{"d0", "d1", "u", "missing", "d0/a", string(c.Adds[0])} {
-		if err := w.W.Add(p); !errors.Is(err, fsnotify.ErrClosed) {
-			r.viol = fmt.Sprintf("after Close returned, Add(%q) = %v, want ErrClosed", p, err)
-			return
+	inert := ""
+	if proof, ok := withWatchdog("Add/Remove/WatchList after Close", func() {
+		for _, p := range []string{"d0", "d1", "u", "missing", "d0/a", string(c.Adds[0])} {
+			if err := w.W.Add(p); !errors.Is(err, fsnotify.ErrClosed) {
+				inert = fmt.Sprintf("after Close returned, Add(%q) = %v, want ErrClosed", p, err)
+				return
+			}
+			if err := w.W.Remove(p); err != nil {
+				inert = fmt.Sprintf("after Close returned, Remove(%q) = %v, want nil", p, err)
+				return
+			}
 		}
-		if err := w.W.Remove(p); err != nil {
-			r.viol = fmt.Sprintf("after Close returned, Remove(%q) = %v, want nil", p, err)
-			return
+		if l := w.W.WatchList(); l != nil {
+			inert = fmt.Sprintf("after Close returned, WatchList() = %q, want nil", l)
 		}
-	}
-	if l := w.W.WatchList(); l != nil {
-		r.viol = fmt.Sprintf("after Close returned, WatchList() = %q, want nil", l)
+	}); !ok {
+		r.viol = proof
 		return
 	}
-	if err := w.W.Close(); err != nil {
-		r.viol = fmt.Sprintf("second Close returned %v", err)
+	if inert != "" {
+		r.viol = inert
+		return
+	}
+	var err2 error
+	if proof, ok := withWatchdog("Close() after Close", func() { err2 = w.W.Close() }); !ok {
+		r.viol = proof
+		return
+	}
+	if err2 != nil {
+		r.viol = fmt.Sprintf("second Close returned %v", err2)
 		return
 	}
 	// changes after Close, under fresh names
